@@ -57,13 +57,21 @@ Inductive case :=
    forced EDS response was sent, and the touched records afterwards *)
 | E2E (id : N) (esteps : list eobs_step) (universe : list xds_type)
       (final : list (xds_type * option wr)) (expect : list (xds_type * list N))
+(* the real xds.Stream / xds.Receive loop over an in-memory stream: [probes] istio-agent health probes,
+   then the first ordinary request (node information present?, a generator exists for its type?),
+   [nmsgs] messages in all, then the client closes.  Observed: Initialize calls, processed requests,
+   was a response of the first request's type sent, was a request processed on a connection that
+   was never initialized, did the loop panic, did it end (without the harness having to give up),
+   did Stream return an error, Close calls *)
+| Strm (id : N) (probes : N) (node_ok has_gen : bool) (nmsgs : N)
+       (inits procs : N) (first_answered proc_early panicked ended err : bool) (closes : N)
 (* the per-type tables *)
 | Table (id : N) (t : xds_type) (wildcard_ deps_eds req_mod debug set_watched : bool)
 (* deltaWatchedResources called directly *)
 | Dwr (id : N) (existing : list N) (r : dreq) (res : list N) (wc changed : bool).
 
 Definition case_id c :=
-  match c with Seq id _ _ _ _ => id | E2E id _ _ _ _ => id | Table id _ _ _ _ _ _ => id | Dwr id _ _ _ _ _ => id end.
+  match c with Seq id _ _ _ _ => id | E2E id _ _ _ _ => id | Strm id _ _ _ _ _ _ _ _ _ _ _ _ => id | Table id _ _ _ _ _ _ => id | Dwr id _ _ _ _ _ => id end.
 
 Definition outcome_eqb (a b : outcome) : bool :=
   match a, b with
@@ -175,6 +183,14 @@ Definition model_ok (c : case) : bool :=
   | Seq _ steps universe final _ =>
     seq_ok steps universe final
   | E2E _ steps universe final _ => eseq_ok steps universe final
+  | Strm _ probes node_ok has_gen nmsgs inits procs fa early pan ended err closes =>
+    (* pkg/xds/server.go Receive + Stream: probes before the first request are skipped; the first
+       ordinary request must carry node information, else InvalidArgument and nothing is processed;
+       otherwise Initialize once, every later message is processed in order, Close once at the end *)
+    negb pan && ended && negb early &&
+    (if node_ok
+     then (inits =? 1) && (procs =? nmsgs - probes) && Bool.eqb fa has_gen && negb err && (closes =? 1)
+     else (inits =? 0) && (procs =? 0) && negb fa && err && (closes =? 0))
   | Table _ t w d r g s =>
     Bool.eqb (is_wildcard t) w && Bool.eqb (negb (is_nil (warming_deps t))) d &&
     Bool.eqb (requires_names_mod t) r && Bool.eqb (is_debug t) g && Bool.eqb (should_set_watched t) s
@@ -188,6 +204,11 @@ Definition prop_ok (c : case) : bool :=
   match c with
   | Seq _ steps _ final expect => rows_hold empty_watched steps && expect_ok final expect
   | E2E _ steps _ final expect => erows_hold empty_watched steps && expect_ok final expect
+  | Strm _ _ node_ok has_gen _ _ _ fa early pan ended _ _ =>
+    (* stream-level C04_total + first_request_responds: no panic, the stream ends, no request is handled
+       before the connection is initialized, and a first request from an identified client for a type
+       the server generates is answered *)
+    negb pan && ended && negb early && (if node_ok && has_gen then fa else true)
   | Table _ t w d _ _ _ =>
     (* by the xDS spec LDS and CDS are the wildcard types, EDS/RDS/SDS/ECDS are not; an EDS
        subscription must be re-answered after CDS *)
